@@ -7,7 +7,7 @@ BASELINE_OFF = "cd /repo && env -u GOFLAGS -u GOSUMDB -u GOTOOLCHAIN go test -mo
 CLAIMED = {
  "C01": dict(level="exploration", tech="deterministic simulation: seeded interleavings of SSO / login-completion / callback tasks parked at every storage call, storage-fault injection, reference session model at the storage linearisation point",
    text="Seeded search over whole-system executions: several sessions, callbacks fired before/while/after login completion, duplicated, with foreign/unknown ids, under storage errors, key faults, request deletion, replica restarts and clock jumps; every callback reply is decoded independently and judged against the snapshot the storage handed to that very task. Sampling, not proof; exploration is the right level because the property quantifies over histories and interleavings that only a history-carrying simulator reaches.",
-   ref="§5 C01", note="Trusts synctest's fake clock and quiescence detection, the simulator's storage semantics (immutable snapshot per AuthRequestByID call), and the independent XML/HTML decoders."),
+   ref="§5 C01", note="Trusts synctest's fake clock and quiescence detection, the simulator's storage semantics (immutable snapshot per AuthRequestByID call; in the flavour 'live records' a live view, judged by an interval rule over the stored request's recorded states; in the flavour 'requests per tenant' the issuer value of the call's context selects the tenant), and the independent XML/HTML decoders."),
  "C02": dict(level="exploration", tech="deterministic simulation: a simulated browser resolves where every reply would send it (independent HTML5 form reader / Location parser) while an attacker rewrites requests in flight and SPs re-register with different endpoints between SSO and callback; transport invariant 'target ∈ registered endpoints of the right SP / the persisted pair'",
    text="Seeded search over SSO, callback and logout replies for SPs with 1–4 ACS and 0–3 SLO entries whose URLs carry query strings and metacharacters; requests name foreign consumer URLs, indices, bindings, destinations and extra parameters; SP re-registration (moved ACS/SLO URLs, reordered entries) races the flows. The pair handed to CreateAuthRequest must be one registered entry; callback replies must use exactly the stored pair; error and logout replies must target a registered URL or nothing; no target may come from the request.",
    ref="§5 C02", note="Which registered entry is selected is C16 (not applicable here); only membership and pair consistency are checked. URL equality is modulo one level of percent-encoding (html/template normalises the form action)."),
@@ -33,7 +33,7 @@ CLAIMED = {
    text="Stage 1 sweeps every single deletion / duplication / emptying of each element and attribute of 7 base messages (incl. the SOAP envelope and enveloped signatures) and of the metadata of 2 SPs; stage 2 samples random worlds (corrupted stored SP metadata, deviating / tampered / raw requests with up to 3 edits, torn bodies, failing writers) under storage faults, because a fault changes which fields are nil later. Any panic in a handler goroutine or in NewServiceProvider is a violation keyed by endpoint and enclosing function.",
    ref="§5 C09", note="Coverage-guided fuzzing of the decoders (named in the property's quantifier) is outside this technique family and not done; byte-level damage is sampled."),
  "C10": dict(level="fault_enumeration", tech="deterministic simulation with exhaustive single- and pair-fault injection at every storage call of every endpoint workload (with a concurrent bystander request), followed by seeded random fault schedules and a post-fault recovery phase",
-   text="Stage 1 enumerates completely, for a fixed catalogue (4 provider configurations × 13 workloads × 9 settings: no / callback / metadata bystander, warm-up by an earlier callback / metadata request, and callback / metadata bystander aligned with — or run through — its own call of the very operation the fault hits), every storage call × every fault kind the property names (error, as a single fault in five values: plain, context.Canceled, wrapped DeadlineExceeded, wrapped sql.ErrNoRows, io.ErrUnexpectedEOF; for the key getters nil record, key without certificate, certificate without key, empty certificate; unusable algorithm as configuration), singly and in all pairs; stage 2 samples random worlds and fault schedules. Each faulted request must end in HTTP 5xx or a non-Success SAML message without subject, attribute, signature or user marker, without panic and without later persistence; the bystander's reply must equal its fault-free reply and a request that met no failing call must not crash while another request's call fails; afterwards a recovery flow must succeed.",
+   text="Stage 1 enumerates completely, for a fixed catalogue (4 provider configurations × 14 workloads × 9 settings: no / callback / metadata bystander, warm-up by an earlier callback / metadata request, and callback / metadata bystander aligned with — or run through — its own call of the very operation the fault hits), every storage call × every fault kind the property names (error, as a single fault in six values: plain, context.Canceled, wrapped DeadlineExceeded, wrapped sql.ErrNoRows, io.ErrUnexpectedEOF, a driver text with markup, control and Latin-1 bytes; for the key getters nil record, key without certificate, certificate without key, empty certificate; unusable algorithm as configuration), singly and in all pairs; stage 2 samples random worlds and fault schedules. Each faulted request must end in HTTP 5xx or a non-Success SAML message without subject, attribute, signature or user marker, without panic and without later persistence; the bystander's reply must equal its fault-free reply and a request that met no failing call must not crash while another request's call fails; afterwards a recovery flow must succeed.",
    ref="§5 C10", note="The enumeration is complete for the catalogue only; arbitrary configurations are sampled. Trusts the simulator's fault injector and reply decoders."),
  "C11": dict(level="exploration", tech="deterministic simulation: per-run random provider configuration and request hosts; a simulated SP bootstraps itself from the metadata document served earlier in the same run (entityID, endpoint locations, signing certificate, WantAuthnRequestsSigned), addresses requests to the advertised locations and compares every later reply and the certificate endpoint with what was advertised, across key rotation",
    text="Seeded search over issuer modes (static with/without path and trailing slash, Host-, Forwarded- and custom-header-derived), endpoint configurations (default, custom path with/without leading slash, external URL), metadata path, WantAuthRequestsSigned values and request hosts. Agreement is checked between independently observed things: served entityID vs. Issuer of every protocol reply for the same host, advertised location vs. the handler that answers there, advertised certificate vs. certificate endpoint vs. key version in use, advertised WantAuthnRequestsSigned vs. whether unsigned conformant requests are refused.",
